@@ -1,4 +1,5 @@
 import GraafVerif.Proof.Bfm
+import GraafVerif.Proof.BfmRepeat
 /-!
 # C07 — Bellman-Ford-Moore: exact distances, or None on a reachable negative circuit
 
@@ -124,5 +125,19 @@ example : WGraph.NonNeg ⟨2, fun u => if u = 0 then [(1, 3)] else []⟩ := by
   simp only [WGraph.A] at h
   split at h <;> simp at h
   omega
+
+/-- **State carried between calls.**  `distances(&mut self)` works on `self.dist` and does not
+re-initialise it; still, every one of `k` calls on the SAME object returns exactly what a single
+call returns: a `Some(d)` is a fixpoint of the round loop and passes the scan again; after a
+`None` the vector still consists of walk weights, so the scan fires again. -/
+theorem bfm_repeat_const (g : WGraph) (hwf : g.WF) (s : Nat) (hs : s < g.n) (k : Nat) (r : Option Dist)
+    (h : distances g s = .ret r) : distancesRepeat g s k = some (List.replicate k r) :=
+  distancesRepeat_const hwf hs k r h
+
+/-- Non-vacuity: three calls on the negative-circuit doc example, three on a `Some` case. -/
+example : distancesRepeat ⟨3, fun u => if u = 0 then [(1, -2)] else if u = 1 then [(2, -1)] else [(0, -1)]⟩ 0 3
+    = some [none, none, none] := by decide
+example : distancesRepeat ⟨3, fun u => if u = 0 then [(1, -2)] else if u = 2 then [(0, 1)] else []⟩ 0 3
+    = some (List.replicate 3 (some [some 0, some (-2), none])) := by decide
 
 end GraafVerif.C07
